@@ -746,6 +746,91 @@ def _ior_update(func):
     return changed
 
 
+def _scalarize_dicts(func):
+    """a local bound once to a dict display with literal string keys, used only
+    as `d['k']` (read, store, augmented store) with those keys and returned as
+    a whole, is a bundle of separate locals: `d['k']` -> `d__k`, `return d` ->
+    `return {'k': d__k, ...}`"""
+    import re
+    FUNC_ = (ast.FunctionDef, ast.AsyncFunctionDef, ast.Lambda)
+    binds = {}
+    for n in ast.walk(func):
+        if isinstance(n, ast.Assign) and len(n.targets) == 1 and \
+                isinstance(n.targets[0], ast.Name) and isinstance(n.value, ast.Dict):
+            ks = n.value.keys
+            if ks and all(isinstance(k, ast.Constant) and isinstance(k.value, str)
+                          and re.fullmatch(r'[A-Za-z_][A-Za-z_0-9]*', k.value) for k in ks) \
+                    and len({k.value for k in ks}) == len(ks):
+                binds.setdefault(n.targets[0].id, []).append(n)
+    all_names = {x.id for x in ast.walk(func) if isinstance(x, ast.Name)} | \
+        {a.arg for a in ast.walk(func) if isinstance(a, ast.arg)}
+    changed = False
+    for name, sites in binds.items():
+        if len(sites) != 1:
+            continue
+        bind = sites[0]
+        keys = [k.value for k in bind.value.keys]
+        new = {k: '%s__%s' % (name, k) for k in keys}
+        if any(v in all_names for v in new.values()):
+            continue
+        # parents
+        par = {}
+        for p in ast.walk(func):
+            for c in ast.iter_child_nodes(p):
+                par[c] = p
+        ok = True
+        uses = []
+        for x in ast.walk(func):
+            if isinstance(x, ast.Name) and x.id == name and x is not bind.targets[0]:
+                p = par.get(x)
+                # inside a nested function?
+                q = x
+                while q is not func:
+                    q = par[q]
+                    if isinstance(q, FUNC_) and q is not func:
+                        ok = False
+                if isinstance(p, ast.Subscript) and p.value is x and \
+                        isinstance(p.slice, ast.Constant) and p.slice.value in new and \
+                        not isinstance(p.ctx, ast.Del):
+                    uses.append(('item', p))
+                elif isinstance(p, ast.Return) and p.value is x:
+                    uses.append(('ret', p))
+                else:
+                    ok = False
+            elif isinstance(x, (ast.Global, ast.Nonlocal)) and name in x.names:
+                ok = False
+        if any(a.arg == name for a in ast.walk(func) if isinstance(a, ast.arg)):
+            ok = False
+        if not ok:
+            continue
+        for kind, node in uses:
+            if kind == 'item':
+                p = par[node]
+                rep = ast.copy_location(ast.Name(id=new[node.slice.value], ctx=node.ctx), node)
+                for f, v in ast.iter_fields(p):
+                    if v is node:
+                        setattr(p, f, rep)
+                    elif isinstance(v, list):
+                        for i, y in enumerate(v):
+                            if y is node:
+                                v[i] = rep
+            else:
+                node.value = ast.copy_location(ast.Dict(
+                    keys=[ast.Constant(value=k) for k in keys],
+                    values=[ast.Name(id=new[k], ctx=ast.Load()) for k in keys]), node)
+        # the binding becomes one assignment per key, in display order
+        owner = par[bind]
+        for f, v in ast.iter_fields(owner):
+            if isinstance(v, list) and bind in v:
+                i = v.index(bind)
+                v[i:i + 1] = [ast.copy_location(ast.Assign(
+                    targets=[ast.Name(id=new[k.value], ctx=ast.Store())], value=val,
+                    type_comment=None), bind) for k, val in zip(bind.value.keys, bind.value.values)]
+        ast.fix_missing_locations(func)
+        changed = True
+    return changed
+
+
 def _exc_traceback(func):
     """inside `except T as exc:` (exc not rebound, no nested try), the handled
     exception's `exc.__traceback__` is `sys.exc_info()[2]`"""
@@ -1510,6 +1595,8 @@ def normalize(func):
     if _ior_update(new):
         changed = True
     if _exc_traceback(new):
+        changed = True
+    if _scalarize_dicts(new):
         changed = True
     mod_ = _module_of(func)
     if mod_ is not None:
